@@ -445,20 +445,20 @@ def check_sq(run, pkg):
         SUM = None
         if E[0] == "bin" and E[1] == "/":
             SUM, den = E[2], E[3]
-            oknorm = den in (("call", "math.sqrt", (Nsel,), ()), ("call", "numpy.sqrt", (Nsel,), ()), ("bin", "**", Nsel, C(0.5)))
+            oknorm = eqv(den, ("call", "math.sqrt", (Nsel,), ()), ("call", "numpy.sqrt", (Nsel,), ()), ("bin", "**", Nsel, C(0.5)))
         run.ob("R-ALG", fq, f"{kind}:norm", oknorm, "the Fourier sum is divided by sqrt(" + ("number of selected particles" if kind == "bool" else "N") + ") before the modulus: S = |sum|^2 / N"
                + (" (the S_aa of sq.* with N_a = selected count)" if kind == "bool" else ""), show(E[3])[:60] if E[0] == "bin" else show(E)[:60],
                witness=None if oknorm else "normalisation is not 1/N" + ("_selected" if kind == "bool" else ""), loc=loc)
-        if SUM is None or not (SUM[0] == "bin" and SUM[1] == "+" and SUM[2][0] == "mu"):
+        if SUM is None or split_acc(SUM) is None:
             run.ob("R-ALG", fq, f"{kind}:sum", None, "Fourier sum accumulated in a particle loop", show(SUM)[:80] if SUM else "?", loc=loc)
             continue
-        mu, X = SUM[2], SUM[3]
+        mu, X = split_acc(SUM)
         L = it.loops[mu[1]]
         ivar = L.target
         okinit = mu[3] in (C(0), C(0.0), C(0j))
-        okdom = L.iter == ("call", "builtins.range", (Nsel,), ())
-        run.ob("R-LOOPDOM", fq, f"{kind}:particles", okdom and okinit, "the sum starts at 0 and runs over all " + ("selected " if kind == "bool" else "") + "particles", show(L.iter)[:60],
-               witness=None if okdom and okinit else "particles skipped / counted twice", loc=fi.loc(L.node))
+        okdom = eqv(L.iter, ("call", "builtins.range", (Nsel,), ()))
+        run.ob("R-LOOPDOM", fq, f"{kind}:particles", tri(okdom, True if okinit else None), "the sum starts at 0 and runs over all " + ("selected " if kind == "bool" else "") + "particles", show(L.iter)[:60],
+               witness="particles skipped / counted twice", loc=fi.loc(L.node))
         # X = phase [* weight]
         phase, weight = X, None
         if X[0] == "bin" and X[1] == "*":
